@@ -10,6 +10,16 @@
 3. TLC validates every recorded execution against PageXml_Trace: first the detailed level (behaviour of PageXml); an
    execution rejected there is judged at the property level (clauses of the statement only): rejected -> VIOLATION,
    accepted -> MODEL-DRIFT.
+4. History and scale (judged by the same operators of PageXml, see PageXml_Trace):
+   * space "scale": sampled pages beyond the small bounds (coordinates beyond 2^15 / 2^16 / 2^24 / 2^27, sizes, indices and
+     heights beyond 2^16 / 2^24, 300 lines, 1100-point outlines, 70 000-character texts): the far-away pages are
+     model-checked like the others, all of them are executed and validated like the others; a page of 260 regions is
+     executed and judged at the property level only (the design's recursive sort cannot order that many inside TLC);
+   * "fine" executions: coordinates finer than the model's quarter grid and than float32 (q/4 +- 2^-30); page0 of the record
+     is the oracle page computed with exact rationals by pagexml_common.oracle_page; property level only;
+   * histories (kind "hist", pagexml_common.run_hist): Export; Load; Export; the caller edits the loaded page IN PLACE;
+     Export; Load; [a load that fails half way]; Load of the FIRST document again; Export - all in one long-lived process
+     together with the other executions of the same worker; clauses 10-15 of HClause; property level only.
 """
 import json
 import os
@@ -28,7 +38,15 @@ CLAUSES = {1: ("raised", "the real code raised / the behaviour did not complete"
            6: ("round-trip", "2nd load(export(p)) differs from p beyond the documented rounding"),
            7: ("held-order", "2nd PageLayout(file=...) does not hold the regions in reading order"),
            8: ("written-order", "3rd export: regions not written in reading order"),
-           9: ("fixpoint", "re-export of the re-loaded document differs from the document (timestamps aside)")}
+           9: ("fixpoint", "re-export of the re-loaded document differs from the document (timestamps aside)"),
+           10: ("written-order", "history: export of a loaded page edited in place: regions not written in reading order"),
+           11: ("round-trip", "history: a loaded page edited in place, saved and loaded back differs from the edited page beyond the "
+                              "documented rounding"),
+           12: ("held-order", "history: PageLayout(file=...) of the edited page's document does not hold the regions in reading order"),
+           13: ("round-trip", "history: the first document loaded AGAIN (after the page loaded from it before was edited in place / "
+                              "after a failing load) differs from the page it was written from"),
+           14: ("held-order", "history: PageLayout(file=...) of the first document loaded again does not hold the regions in reading order"),
+           15: ("written-order", "history: export of the page loaded again: regions not written in reading order")}
 
 TRACE_CONSTS = {"Pages": set(), "Vers": {1, 2}, "Hows": {"into", "ctor"}, "GuessVals": set(), "OffTenths": set(),
                 "Legacy": False}
@@ -86,47 +104,95 @@ def cases_of(pages, behaviours, tables=None):
 
 def execute(ctx, cases):
     P.set_workdir(ctx.workdir)
-    return pmap(P.run_case, cases, procs=6)
+    return pmap(P.run_any, cases, procs=6)
 
 
 def _slim(tr):
-    return {k: v for k, v in tr.items() if k in ("page0", "events", "outcome")}
+    out = {k: v for k, v in tr.items() if k in ("kind", "page0", "events", "outcome")}
+    out.setdefault("kind", "std")
+    return out
 
 
-def judge(ctx, name, cases, traces):
+def _key(c):
+    pg = c["page"]
+    nontrivial = bool(pg["regions"]) and (len(pg["regions"]) > 1 or bool(pg["regions"][0]["lines"]))
+    if not nontrivial:
+        return None
+    big = len(json.dumps(pg)) > 20000
+    return json.dumps([P.doc_hash(json.dumps(pg, sort_keys=True)) if big else pg, c["v1"], c["v2"], c["via1"], c["via2"],
+                       c.get("perm1", "id"), c.get("jitter", 0), c.get("shift", []), bool(c.get("fail")), bool(c.get("hist")),
+                       bool(c.get("after"))],
+                      sort_keys=True)
+
+
+def _describe(c):
+    if c.get("hist"):
+        return "history: loaded page moved in place by %s%s, then the first document loaded again" % (
+            c["shift"], " and a failing load" if c.get("fail") else "")
+    if c.get("jitter"):
+        return "coordinates off the quarter grid by 2^-%d (page0 = exact-rational oracle)" % c["jitter"]
+    return "regions-reordered-before-1st-load=%s%s" % (c.get("perm1", "id"), ", executed after a " + _describe(c["after"]) if c.get("after") else "")
+
+
+def _property_level(ctx, name, cases, traces, slim, rej, shards=None):
+    """rej = [(index, detailed progress)]: judged by the clauses of the statement only; rejected -> VIOLATION, accepted -> drift"""
+    ridx = [i for i, _ in rej]
+    acc2, rej2 = ctx.validate("PageXml_Trace", [slim[i] for i in ridx], constants=TRACE_CONSTS, init="PInit", next_="PNext",
+                              constraint="PAccept", label="PageXml_Trace property-level %s" % name, jvm_mem="4g", shards=shards)
+    bad = {ridx[j]: clause for j, clause in rej2}
+    for i, prog in rej:
+        if i in bad:
+            sig, what = CLAUSES.get(bad[i], ("clause-%d" % bad[i], "clause %d" % bad[i]))
+            tr = traces[i]
+            c = cases[i]
+            if bad[i] == 1:
+                what += " (%s at call %d: %s)" % (tr["outcome"], tr.get("where", 0), tr.get("error", ""))
+                sig = "raised:%s" % tr["outcome"].split(":")[-1]
+            pg = c["page"]
+            big = len(pg["regions"]) > 6
+            ctx.violation({"case": c, "trace": slim[i] if len(json.dumps(slim[i])) < 60000 else {"omitted": "large; re-execute the case"},
+                           "clause": bad[i], "detailed_progress": prog}, sig,
+                          "%s; space %s, behaviour v=%d/%d via=%s/%s %s, page regions=%s reading_order=%s" % (
+                              what, name, c["v1"], c["v2"], c["via1"], c["via2"], _describe(c),
+                              ("%d regions" % len(pg["regions"])) if big else [r["id"] for r in pg["regions"]],
+                              (pg["ro"] if not big else "%d entries" % len(pg["ro"])) if pg["hasRO"] else None))
+        elif prog >= 0:
+            ctx.model_drift("%s: differs from PageXml at event %d, statement satisfied" % (name, prog + 1), 1,
+                            {"case": cases[i], "trace": slim[i]})
+    return bad
+
+
+def judge_property(ctx, name, cases, traces):
+    """histories and 'fine' executions: no detailed level (the design has no Edit action / cannot hold the off-grid input);
+    every execution is judged by the clauses of the statement"""
+    for tr in traces:
+        if tr["outcome"].startswith("harness:"):
+            raise RuntimeError("harness could not build the abstract page as a real object: %s" % json.dumps(tr)[:2000])
+    slim = [_slim(t) for t in traces]
+    for c in cases:
+        ctx.count(1, _key(c))
+    for k in (0, len(cases) - 1):
+        ctx.sample({"space": name, "case": {f: cases[k].get(f) for f in ("v1", "v2", "via1", "via2", "hist", "shift", "fail", "jitter")},
+                    "trace": slim[k] if len(json.dumps(slim[k])) < 20000 else "large"}, limit=6)
+    return _property_level(ctx, name, cases, traces, slim, [(i, -1) for i in range(len(cases))],
+                           shards=max(1, min(4, len(cases) // 40)))
+
+
+def judge(ctx, name, cases, traces, shards=None):
     """detailed level first; the rejected ones at the property level"""
     for c, tr in zip(cases, traces):
         if tr["outcome"].startswith("harness:"):
             raise RuntimeError("harness could not build the abstract page as a real object: %s" % json.dumps(tr)[:2000])
     slim = [_slim(t) for t in traces]
     acc, rej = ctx.validate("PageXml_Trace", slim, constants=TRACE_CONSTS, label="PageXml_Trace detailed %s" % name,
-                            jvm_mem="4g")
-    for c, tr in zip(cases, traces):
-        pg = c["page"]
-        nontrivial = bool(pg["regions"]) and (len(pg["regions"]) > 1 or bool(pg["regions"][0]["lines"]))
-        ctx.count(1, json.dumps([pg, c["v1"], c["v2"], c["via1"], c["via2"], c.get("perm1", "id")], sort_keys=True) if nontrivial else None)
+                            jvm_mem="4g", shards=shards)
+    for c in cases:
+        ctx.count(1, _key(c))
+    mid = slim[len(slim) // 2]
     ctx.sample({"space": name, "case": {k: cases[len(cases) // 2][k] for k in ("v1", "v2", "via1", "via2")},
-                "trace": slim[len(slim) // 2]}, limit=3)
+                "trace": mid if len(json.dumps(mid)) < 20000 else "large"}, limit=3)
     if rej:
-        ridx = [i for i, _ in rej]
-        acc2, rej2 = ctx.validate("PageXml_Trace", [slim[i] for i in ridx], constants=TRACE_CONSTS, init="PInit", next_="PNext",
-                                  constraint="PAccept", label="PageXml_Trace property-level %s" % name, jvm_mem="4g")
-        bad = {ridx[j]: clause for j, clause in rej2}
-        for i, prog in rej:
-            if i in bad:
-                sig, what = CLAUSES.get(bad[i], ("clause-%d" % bad[i], "clause %d" % bad[i]))
-                tr = traces[i]
-                c = cases[i]
-                if bad[i] == 1:
-                    what += " (%s at call %d: %s)" % (tr["outcome"], tr.get("where", 0), tr.get("error", ""))
-                    sig = "raised:%s" % tr["outcome"].split(":")[-1]
-                ctx.violation({"case": c, "trace": slim[i], "clause": bad[i], "detailed_progress": prog}, sig,
-                              "%s; space %s, behaviour v=%d/%d via=%s/%s regions-reordered-before-1st-load=%s, page regions=%s reading_order=%s" % (
-                                  what, name, c["v1"], c["v2"], c["via1"], c["via2"], c.get("perm1", "id"),
-                                  [r["id"] for r in c["page"]["regions"]], c["page"]["ro"] if c["page"]["hasRO"] else None))
-            else:
-                ctx.model_drift("%s: differs from PageXml at event %d, statement satisfied" % (name, prog + 1), 1,
-                                {"case": cases[i], "trace": slim[i]})
+        _property_level(ctx, name, cases, traces, slim, rej)
     return acc, rej
 
 
@@ -193,6 +259,7 @@ def run(ctx):
         cases = cases_of(pages, behaviours)
         traces = execute(ctx, cases)
         judge(ctx, name, cases, traces)
+    history_and_scale(ctx, sp)
     # self-test 1: the sort keyed by the region object (the tree as found) must be visible to TLC
     legacy_pages = [p for p in sp["structure"][0] if len(p["regions"]) >= 2 and p["hasRO"]][:300]
     design(ctx, "structure-legacy", legacy_pages, legacy=True, expect="InvWritten", workers=2)
@@ -245,8 +312,66 @@ def two_by_two_pages():
     return pages
 
 
+SCALE_BEH = [(1, 2, "string", "ctor"), (2, 1, "ctor", "file"), (2, 2, "file", "string")]
+HIST_BEH = [(1, 1, "string", "file"), (2, 2, "file", "ctor"), (1, 2, "ctor", "string"), (2, 1, "string", "ctor"), (2, 2, "ctor", "ctor")]
+SHIFTS = [[100, 50, 16], [-7, 3, 0], [1, -1, 4], [-3000, 70000, 1]]     # dx, dy pixels; heights + dh/16
+
+
+def hist_cases(ctx, sp, far):
+    """histories over a sample of the exhaustive spaces (every k-th page with a region) and the far-away pages; in one worker
+    process a history is followed by other histories, plain and 'fine' executions (long-lived module state is shared)"""
+    quick = ctx.tier == "quick"
+    attr = [p for p in sp["attributes"][0]]
+    struct = [p for p in sp["structure"][0] if p["regions"]]
+    pick = attr[::(29 if quick else 7)] + struct[5::(67 if quick else 17)]
+    out = []
+    for k, pg in enumerate(pick):
+        v1, v2, a, b = HIST_BEH[k % len(HIST_BEH)]
+        out.append({"hist": True, "page": pg, "v1": v1, "v2": v2, "via1": a, "via2": b, "shift": SHIFTS[k % 3], "fail": k % 3 == 1})
+        if k % 4 == 0:          # the same page again, right after that history in the same process, as a plain execution
+            out.append({"page": pg, "v1": v2, "v2": v1, "via1": a, "via2": b, "perm1": "id", "after": dict(out[-1])})
+    for k, pg in enumerate(far):
+        v1, v2, a, b = HIST_BEH[k % len(HIST_BEH)]
+        out.append({"hist": True, "page": pg, "v1": v1, "v2": v2, "via1": a, "via2": b, "shift": SHIFTS[(k + 1) % 4], "fail": k % 2 == 0,
+                    "tables": "scale"})
+    return out
+
+
+def history_and_scale(ctx, sp):
+    # scale: the far-away pages are inside what TLC enumerates (32-bit integers): model-checked; the long ones are executed and
+    # validated only (sampled inputs beyond the design's bounded space)
+    scale = P.scale_pages()
+    far = [p for p in scale if len(json.dumps(p)) < 4000]
+    design(ctx, "scale", far, workers=2)
+    cases = cases_of(scale, SCALE_BEH if ctx.tier == "quick" else SCALE_BEH + QUICK_ATTR_BEH, tables="scale")
+    traces = execute(ctx, cases)
+    judge(ctx, "scale", cases, traces, shards=3)
+    # histories, 'fine' inputs and plain executions interleaved in the same long-lived worker processes
+    cases = hist_cases(ctx, sp, far)
+    fine = [{"page": pg, "v1": v1, "v2": v2, "via1": a, "via2": b, "perm1": "id", "jitter": 30}
+            for pg in P.fine_pages() for v1, v2, a, b in (QUICK_ATTR_BEH[:2] if ctx.tier == "quick" else QUICK_ATTR_BEH)]
+    # more than 255 regions: first, so that it shares its TLC shard with small executions only
+    cases.insert(0, {"page": P.many_regions_page(), "v1": 2, "v2": 1, "via1": "ctor", "via2": "string", "perm1": "rev"})
+    step = max(1, len(cases) // len(fine))
+    for k, c in enumerate(fine):
+        cases.insert(min(len(cases), (k + 1) * step + k), c)
+    for c in cases:
+        c["plevel"] = True          # replay: judge at the property level only
+    traces = execute(ctx, cases)
+    judge_property(ctx, "history+fine", cases, traces)
+    ctx.rule += ("; plus, sampled (not exhaustive): pages of the 'scale' space (coordinates / sizes / indices / heights beyond 2^16 "
+                 "and 2^24, hundreds of lines / regions / points, 70 000-character texts), 'fine' inputs (coordinates q/4 +- 2^-30 "
+                 "judged against an exact-rational oracle page) and histories over long-lived objects (a loaded page edited in "
+                 "place, a failing load, the first document loaded again)")
+    ctx.assume("a page object returned by a load belongs to the caller: editing it in place is not allowed to change what a later "
+               "load of any document returns")
+
+
 def replay(ctx, case):
     c = case["case"]
     P.set_workdir(ctx.workdir)
-    tr = P.run_case(c)
-    judge(ctx, "replay", [c], [tr])
+    tr = P.run_any(c)
+    if c.get("plevel") or c.get("hist") or c.get("jitter") or c.get("after"):
+        judge_property(ctx, "replay", [c], [tr])
+    else:
+        judge(ctx, "replay", [c], [tr])
